@@ -193,7 +193,7 @@ func TestVerifC16Histories(t *testing.T) {
 	defer r.Flush()
 	depth, ob := 4, 1
 	if ev.Thorough() {
-		depth, ob = 5, 2
+		depth, ob = 6, 2
 	}
 	r.Rule(fmt.Sprintf("for every builder (CreateNetworkInterface Finish/EFLO, AssignPrivateIP Finish/EFLO, AssignIPv6 Finish) and every pair of parameter sets (tags 0..3, 1-2 security groups, counts 1-2, two ENI ids/zones): all histories of length <=%d over {issue(P1), issue(P2), fail(oldest unfinished), fail(newest unfinished), succeed(oldest)} with the real SimpleIdempotentKeyGenerator; the tag map's iteration order at every issue is an explorer choice (<=%d non-default orders per history, all n! permutations); oracle = reference ledger: a retry gets a token its failed attempt handed back, unfinished requests never share a token, parameter sets never share a token", depth, ob))
 	ps := verifParams()
@@ -291,7 +291,7 @@ func TestVerifC16Concurrent(t *testing.T) {
 	defer r.Flush()
 	pb := 2
 	if ev.Thorough() {
-		pb = 3
+		pb = 5
 	}
 	r.Rule(fmt.Sprintf("2 and 3 threads, each: issue(P); rollback; issue(P) again; succeed — on equal parameters (all collide on one hash) and on different parameters, for CreateNetworkInterface (2 tags) and AssignPrivateIP builders over one real generator whose mutex and LRU operations are scheduling points; all interleavings with <=%d preemptions, <=1 order deviation, happens-before state caching; oracle: the reference ledger evaluated after every operation", pb))
 	ps := verifParams()
